@@ -433,6 +433,22 @@ class Obj(Shape):
                 obj.fields[k] = s.fresh(ctx, f'{name}.{k}')
 
 
+class Text(Shape):
+    """An arbitrary text value (name, id, message): an opaque atom; excl = characters it cannot
+    contain."""
+
+    def __init__(self, excl='', samples=None):
+        self.excl = excl
+        self.samples = samples or ['', 'a', 'Team A', 'x  y', '12', 'ü']
+
+    def sample(self, rng):
+        return rng.choice(self.samples)
+
+    def fresh(self, ctx, name):
+        from .strings import XStr
+        return XStr.atom(ctx.fresh_name(name), excl=self.excl)
+
+
 class Ext(Shape):
     """External object (socket ...) with ghost fields."""
 
@@ -551,7 +567,8 @@ class Ref(Shape):
 
 class LoopContract:
     def __init__(self, invariant=None, variant=None, unroll=None, havoc=None, havoc_heap=None,
-                 entry_snapshot=False):
+                 entry_snapshot=False, body_ensures=None):
+        self.body_ensures = body_ensures or {}
         self.invariant = invariant
         self.variant = variant
         self.unroll = unroll
@@ -600,8 +617,9 @@ class FnContract:
         self.split = d.get('split')
         # verified against its own contract as a unit, but inlined at call sites (its contract
         # speaks about ghost parameters that a caller cannot supply); reported in evidence
-        self.inline_at_calls = d.get('inline_at_calls', self.__dict__.get('inline_at_calls', False)) or \
-            ('fresh_params' in d)
+        self.at_calls = d.get('at_calls', 'inline' if 'fresh_params' in d else 'contract')
+        self.inline_at_calls = self.at_calls == 'inline'
+        self.abstract_raises = tuple(d.get('abstract_raises', (Exception,)))
         # fresh_params(ctx) -> {param: value}: parameters that are generated jointly (a message
         # together with the value it encodes); sample_params(rng) is its native counterpart
         self.fresh_params = _plain(d['fresh_params']) if 'fresh_params' in d else None
@@ -609,6 +627,10 @@ class FnContract:
         # params_from_ghosts({ghost_x: value}) -> {param: value}: rebuild the real arguments from the
         # (lowered) ghost values of a counter-model, for native replay
         self.params_from_ghosts = _plain(d['params_from_ghosts']) if 'params_from_ghosts' in d else None
+        # native_replay: {obligation name: callable() -> (failures | None, info)}: a scripted
+        # scenario on the real code that replays a counter-model of that obligation (used where the
+        # model itself cannot be injected: whole sessions over sockets and threads)
+        self.native_replay = dict(d.get('native_replay', {}))
 
     def shape_of(self, pname, registry):
         if pname in self.shapes:
